@@ -224,8 +224,65 @@ def gen_circuit(rng, tier):
         d["mexpo"] = expo
         d["api"] = rng.choice(["method", "function"])
         d["nested"] = rng.random() < 0.35
+        d["styles"] = {}
+        if not d["nested"]:
+            for a, b in d["conns"]:
+                st = rng.choice(["all", "all", "each", "subset", "some_then_all"])
+                d["styles"][f"{a[0]}.{a[1]}-{b[0]}.{b[1]}"] = st
+                common = [m for m in d["comps"][a[0]]["modes"] if m in d["comps"][b[0]]["modes"]]
+                if st == "subset" and len(common) >= 2:
+                    # the mode that stays unwired is exposed on one side (an EARLIER mode of a port whose later mode is wired)
+                    d["mexpo"].append([a[0], a[1], common[0], f"s{len(d['mexpo'])}"])
         d["mode_major"] = rng.random() < 0.6
+        if not d["nested"] and uniform and len(pool) >= 2 and rng.random() < 0.5:
+            # ONE port, two partners: mode m0 of port (a, pa) goes to one structure, mode m1 of the same port to another
+            cs = d["conns"]
+            for i in range(len(cs)):
+                for j in range(i + 1, len(cs)):
+                    for si in (0, 1):
+                        for sj in (0, 1):
+                            if cs[i][si][0] == cs[j][sj][0] and cs[i][1 - si][0] != cs[j][1 - sj][0] \
+                                    and "split" not in d:
+                                a, b, c3 = cs[i][si], cs[i][1 - si], cs[j][1 - sj]
+                                for key in (f"{cs[i][0][0]}.{cs[i][0][1]}-{cs[i][1][0]}.{cs[i][1][1]}",
+                                            f"{cs[j][0][0]}.{cs[j][0][1]}-{cs[j][1][0]}.{cs[j][1][1]}"):
+                                    d["styles"].pop(key, None)
+                                cs[i] = [list(a), list(b)]
+                                cs[j] = [list(a), list(c3)]
+                                m0, m1 = d["comps"][a[0]]["modes"][:2]
+                                d["styles"][f"{a[0]}.{a[1]}-{b[0]}.{b[1]}"] = "only:" + m0
+                                d["styles"][f"{a[0]}.{a[1]}-{c3[0]}.{c3[1]}"] = "only:" + m1
+                                d["split"] = True
+            # exposures added for 'subset' links of re-routed pairs may now be wired: drop them
+            if d.get("split"):
+                wired = set()
+                for a, b in cs:
+                    sel = link_sel(d, a, b)
+                    common = [m for m in d["comps"][a[0]]["modes"] if m in d["comps"][b[0]]["modes"]]
+                    for m in (common if sel is None else sel):
+                        wired.add((a[0], a[1], m))
+                        wired.add((b[0], b[1], m))
+                d["mexpo"] = [e for e in d["mexpo"] if (e[0], e[1], e[2]) not in wired]
+                if not d["mexpo"]:
+                    continue
         return d
+
+
+def link_style(d, a, b):
+    return (d.get("styles") or {}).get(f"{a[0]}.{a[1]}-{b[0]}.{b[1]}", "all")
+
+
+def link_sel(d, a, b):
+    """None: every common mode (connect_all, possibly after a first explicit connect); a list: exactly these modes"""
+    st = link_style(d, a, b)
+    common = [m for m in d["comps"][a[0]]["modes"] if m in d["comps"][b[0]]["modes"]]
+    if st.startswith("only:"):
+        return [st[5:]]
+    if st == "each":
+        return list(reversed(common))
+    if st == "subset" and len(common) >= 2:
+        return common[1:]                 # the first common mode stays unwired (it may be exposed instead)
+    return None
 
 
 def run_circuit(d):
@@ -236,6 +293,16 @@ def run_circuit(d):
         for i in indices:
             sts[i] = netlib.comp_model(comps[i]).expand_mode(list(comps[i]["modes"])).put()
         for a, b in conns:
+            sel = link_sel(d, a, b)
+            if sel is not None or link_style(d, a, b) == "some_then_all":
+                # mode-selective wiring: the chosen modes are wired one by one with connect (Pin objects carrying the
+                # mode); "some_then_all" completes the port pair with connect_all afterwards
+                common = [m for m in comps[a[0]]["modes"] if m in comps[b[0]]["modes"]]
+                first = sel if sel is not None else common[:1]
+                for m in first:
+                    lk.connect(sts[a[0]].pin[f"p{a[1]}_{m}"], sts[b[0]].pin[f"p{b[1]}_{m}"])
+                if sel is not None:
+                    continue
             if d["api"] == "function":
                 lk.connect_all(sts[a[0]], f"p{a[1]}", sts[b[0]], f"p{b[1]}")
             else:
@@ -281,7 +348,10 @@ def circuit_lit(d, obs):
     cs = clist("{| mc_id := %s; mc_n := %s; mc_S := %s; mc_modes := %s |}"
                % (cnat(i), cnat(c["n"]), cmat(netlib.j2m(c["S"]).reshape(c["n"], c["n"]), cq),
                   clist(cstr(m) for m in c["modes"])) for i, c in enumerate(d["comps"]))
-    ls = clist("(%s, %s, %s, %s)" % (cnat(a[0]), cnat(a[1]), cnat(b[0]), cnat(b[1])) for a, b in d["conns"])
+    def sel_lit(a, b):
+        sel = link_sel(d, a, b)
+        return "None" if sel is None else "(Some %s)" % clist(cstr(m) for m in sel)
+    ls = clist("(%s, %s, %s, %s, %s)" % (cnat(a[0]), cnat(a[1]), cnat(b[0]), cnat(b[1]), sel_lit(a, b)) for a, b in d["conns"])
     ex = clist("(%s, %s, %s)" % (cnat(c), cnat(k), cstr(m)) for (c, k, m, _) in d["mexpo"])
     return "{| mm_comps := %s; mm_links := %s; mm_expo := %s; mm_obs := %s |}" % (cs, ls, ex, obs)
 
